@@ -1,5 +1,5 @@
 SPECIFICATION Spec
 CONSTANTS N = 12
-  ALPHA = {"n0", "n1", "n2", "n5", "nmax", "f05", "f2", "f15", "unit", "tru", "fls", "syma", "symb", "strs", "stre", "strab", "val", "ida", "idb", "idc", "acc", "pow", "mul", "div", "idiv", "rem", "add", "sub", "shl", "shr", "band", "bxor", "bor", "pair", "lst", "lt", "le", "gt", "ge", "eq", "ne", "and", "xor", "or", "app", "appto", "cond", "condf", "els", "com", "seq", "lefti", "neg", "abs", "bnot", "not", "tis", "reap", "emp", "righti", "leni", "nest", "se"}
+  ALPHA = {"n0", "n1", "n2", "n5", "nmax", "f05", "f2", "f15", "unit", "tru", "fls", "syma", "symb", "strs", "stre", "strab", "val", "ida", "idb", "idc", "acc", "pow", "mul", "div", "idiv", "rem", "add", "sub", "shl", "shr", "band", "bxor", "bor", "pair", "lst", "lt", "le", "gt", "ge", "eq", "ne", "and", "xor", "or", "app", "appto", "cond", "condf", "els", "com", "seq", "lefti", "neg", "abs", "bnot", "not", "tis", "reap", "emp", "righti", "leni", "nest", "se", "cat", "part", "rng", "rngs", "rnge", "rngx", "tyof", "tyeq", "cast", "pfa", "pfb", "sfa", "ifa", "f0", "f1", "f5"}
 INVARIANT Emit
 CHECK_DEADLOCK FALSE
